@@ -6,7 +6,7 @@
 (* computes in the state reached so far.  TLC is the judge; the harness    *)
 (* that recorded the trace contains no oracle.                             *)
 (***************************************************************************)
-EXTENDS Parse, Abi, Json, IOUtils
+EXTENDS Parse, Abi, StrTab, Header, Json, IOUtils
 
 Rec == ndJsonDeserialize(IOEnv.TRACE)
 
@@ -85,6 +85,32 @@ OkIter(e) ==
        /\ Out(e) = "ok" /\ e.res.n = Len(items)
        /\ e.res.items = [i \in 1..Len(items) |-> Pub(items[i])]
 
+\* C15
+OkStr(e) ==
+    LET buf == Buf(e, "buf")
+        raw == GetRaw(buf, e.off)
+        r == IF e.op = "str_get_raw" THEN raw ELSE Get(buf, e.off)
+    IN /\ DeclRaw(buf, e.off, raw)
+       /\ IF r.ok THEN Out(e) = "ok" /\ e.res.s = RangeJ(r.start, r.len) /\ e.res.n = r.len
+          ELSE Out(e) = "err"
+
+\* C10 (ident) and the file header tail (C02)
+OkIdent(e) ==
+    LET buf == Buf(e, "buf")
+        r == ParseIdent(e.es, buf)
+    IN /\ IdentResOk(e.es, buf, e.res)
+       /\ r.ok <=> Out(e) = "ok"
+       /\ r.ok => e.res.osabi = r.osabi /\ e.res.abiversion = r.abiversion
+
+OkTail(e) ==
+    LET little == IsLittle(e.es)
+        r == ParseNat("tail", e.class, little, Buf(e, "buf"), 0)
+    IN IF r.ok THEN /\ Out(e) = "ok"
+                    /\ \A k \in DOMAIN r.f : e.res.f[k] = r.f[k]
+                    /\ e.res.f.class = e.class /\ e.res.f.little = little
+                    /\ e.res.f.osabi = e.osabi /\ e.res.f.abiversion = e.abiversion
+       ELSE Out(e) = "err"
+
 ---------------------------------------------------------------------------
 \* does the specification allow event e in the current state?
 Allowed(e) ==
@@ -94,6 +120,9 @@ Allowed(e) ==
       [] e.op = "acc" -> OkAcc(e)
       [] e.op \in {"tbl_len", "tbl_empty", "tbl_get", "tbl_iter", "tbl_into_iter"} -> OkTblStep(e)
       [] e.op = "iter" -> OkIter(e)
+      [] e.op \in {"str_get_raw", "str_get"} -> OkStr(e)
+      [] e.op = "ident" -> OkIdent(e)
+      [] e.op = "tail" -> OkTail(e)
       [] OTHER -> FALSE
 
 \* C01 / C06 riders on every event that has a result: no panic, no allocation (slice parser)
